@@ -11,6 +11,7 @@ import (
 	"verif/internal/c07"
 	"verif/internal/c08"
 	"verif/internal/c11"
+	"verif/internal/c10"
 	"verif/internal/c15"
 	"verif/internal/c16"
 	"verif/internal/c17"
@@ -24,6 +25,7 @@ var checks = map[string]func(tier, replay string){
 	"C07": c07.Main,
 	"C08": c08.Main,
 	"C11": c11.Main,
+	"C10": c10.Main,
 	"C15": c15.Main,
 	"C16": c16.Main,
 	"C17": c17.Main,
